@@ -92,7 +92,7 @@ class C07(Check):
         dummy = st.fixed_dictionaries(dict(kind=st.just('dummy'), spec=GL.lens_spec(FREE, min_surfs=1), rays=rb, s=st.integers(0, 99),
                                            frac=f(0.25, 0.75), wl=st.integers(0, 3)))
         wave = st.fixed_dictionaries(dict(kind=st.just('wavelength'), spec=GL.lens_spec(IDEAL), rays=rb, w1=f(0.4, 0.9),
-                                          w2=f(0.4, 0.9)))
+                                          w2=f(0.4, 0.9), via=st.sampled_from(['build', 'set_index'])))
         resc = st.fixed_dictionaries(dict(kind=st.just('rescale'), spec=GL.lens_spec(FREE), rays=rb,
                                           logs=f(-2.0, 2.0), wl=st.integers(0, 3)))
         ssys = st.fixed_dictionaries(dict(kind=st.just('scale_system'), spec=GL.lens_spec('scalable'), rays=rb,
@@ -273,6 +273,15 @@ class C07(Check):
             tilted = any(q['rx'] or q['ry'] for q in ([a_s] + ([nxt] if nxt else [])))
             non_std = a_s['type'] != 'standard' or (nxt is not None and nxt['type'] != 'standard')
             return not (abs(a_s['t']) < 4 * (sag_a + sag_b) + 1e-6 or tilted or non_std)
+        # the object gap of a finite-conjugate lens is a gap like any other
+        s1 = spec['surfs'][0]
+        if spec['obj']['t'] != GL.INF and case['s'] % 3 == 0 and s1['type'] == 'standard' and \
+                not (s1['rx'] or s1['ry'] or s1['dx'] or s1['dy']):
+            h1 = s1.get('hd') or 1.0
+            sag1 = abs(GL._sag(s1['R'], s1['k'], min(1.5 * h1, 0.8 * abs(GL.fl(s1['R']))))) if s1['R'] != GL.INF else 0.0
+            t_obj = float(spec['obj']['t'])
+            if t_obj * (1 - case['frac']) > 4 * sag1 + 1e-6:
+                return self.dummy_in_object_gap(case, out, spec, t_obj)
         cand = [i for i in range(K) if loose(i)]
         if not cand:
             out.cls('gap_too_tight_for_dummy')
@@ -327,11 +336,61 @@ class C07(Check):
         powered_after = any(q['R'] != GL.INF for q in spec['surfs'][i + 1:])
         out.nt(powered_after)
 
+    def dummy_in_object_gap(self, case, out, spec, t_obj):
+        K = len(spec['surfs'])
+        n0 = spec['obj'].get('n', 1.0)
+        tw = copy.deepcopy(spec)
+        shift = t_obj * (1 - case['frac'])           # distance from the dummy plane to the old first surface
+        tw['obj']['t'] = t_obj * case['frac']
+        dummy = dict(type='standard', R=GL.INF, k=0.0, coef=None, norm=None, t=shift,
+                     mat=(dict(kind='ideal', n=n0, k=0.0) if n0 != 1.0 else dict(kind='air')), dx=0.0, dy=0.0, rx=0.0, ry=0.0,
+                     ap=None, coat=None, stop=False, hd=spec['surfs'][0].get('hd'))
+        tw['surfs'].insert(0, dummy)
+        o, o2 = build(spec), build(tw)
+        w = spec['wls'][case['wl'] % len(spec['wls'])]
+        a = trace(o, case['rays'], w)
+        # rays that reach the first surface beyond the dummy plane only (see the other gaps)
+        with np.errstate(all='ignore'):
+            ok = (a['z'][1] >= -shift) | ~np.isfinite(a['z'][1])
+        rays = [r for r, c in zip(case['rays'], ok) if c]
+        if not rays:
+            return
+        a = trace(o, rays, w)
+        b = trace(o2, rays, w)
+        b = dict(b)
+        b['z'] = b['z'] - shift                      # the origin of z is the first surface, now the dummy
+        rows_a = list(range(K + 2))
+        rows_b = [0] + list(range(2, K + 3))
+        out.cls('dummy_in_object_gap')
+        self.note(out, spec, a)
+        self.same(out, 'dummy_surface_changes_nothing', a, b, rows=(rows_a, rows_b), at=0, frac=case['frac'])
+        out.nt(any(r[0] != 0 for r in rays))
+
     def check_wavelength(self, case, out):
         spec = copy.deepcopy(case['spec'])
         spec['wls'] = [round(case['w1'], 6)]
         spec['prim'] = 0
-        o = build(spec)
+        if case.get('via') == 'set_index':
+            # a lens of dispersive catalogue glasses made dispersion-free afterwards, medium by medium, with set_index()
+            out.cls('made_dispersion_free_with_set_index')
+            d = copy.deepcopy(spec)
+            g = GL.glasses()[case['w1'] > 0.6]
+            for q in d['surfs']:
+                if q['mat']['kind'] == 'ideal':
+                    q['mat'] = dict(g)
+            o = build(d)
+            cur = None                      # index of the ideal medium the light is in (None: air / object space)
+            for k, q in enumerate(spec['surfs'], start=1):
+                if q['mat']['kind'] == 'ideal':
+                    cur = q['mat']['n']
+                    o.set_index(cur, k)
+                elif q['mat']['kind'] == 'mirror':
+                    if cur is not None:
+                        o.set_index(cur, k)         # the medium behind a mirror is the medium in front of it
+                else:
+                    cur = None
+        else:
+            o = build(spec)
         a = trace(o, case['rays'], spec['wls'][0])
         b = trace(o, case['rays'], round(case['w2'], 6))
         self.note(out, spec, a)
